@@ -579,9 +579,9 @@ func main() {
 		return
 	}
 	out.Rule = "sq: exhaustive lists/arrays up to length L over {lit, ~x, ~@empty, ~@1, ~@3, ~(compound), ~@non-list} bare and nested in list/array/hash + random templates (depth<=4, hashes, near-miss unquote forms, failing expressions) x 3 routes; mac/call: random template-bodied macros x argument forms x 8 call sites"
-	nRandom, nMacros, exLen := 2500, 250, 3
+	nRandom, nMacros, exLen, nRec, nHist := 2500, 250, 3, 300, 150
 	if args.Tier == "thorough" {
-		nRandom, nMacros, exLen = 40000, 3000, 4
+		nRandom, nMacros, exLen, nRec, nHist = 40000, 3000, 4, 5000, 2500
 	}
 	h.freshPool()
 	h.exhaustive(exLen)
@@ -602,7 +602,9 @@ func main() {
 		}
 		h.sqCase(t, "random")
 	}
+	h.recStream(nRec)
 	h.macros(nMacros)
+	h.histories(nHist)
 	out.Extra["interpreters"] = h.envN
 	pb, _ := json.MarshalIndent(h.pools, "", " ")
 	os.WriteFile(args.Out+".pools", pb, 0644)
@@ -627,6 +629,15 @@ func (h *H) replay(path string) {
 	d := &depthRec{}
 	d.install(h.env)
 	impl := "NO-PROGRAM"
+	if strings.HasPrefix(rp.Input, "hist|") {
+		h.out.Case(rp.Input, replayHist(rp.Program), true, "replay")
+		return
+	}
+	if strings.HasPrefix(rp.Input, "sq:rec|") && len(rp.Program) >= 2 {
+		n := len(rp.Program)
+		h.out.Case(rp.Input, h.replayRec(rp.Input, rp.Program[:n-2], rp.Program[n-2], rp.Program[n-1]), true, "replay")
+		return
+	}
 	if strings.HasPrefix(rp.Input, "sq:twice|") && len(rp.Program) > 0 {
 		n := len(rp.Program)
 		impl = h.replayTwice(rp.Input, rp.Program[:n-1], rp.Program[n-1])
